@@ -617,6 +617,10 @@ pub fn apply(prog: &Program, rule: Rule, target: usize, rng: &mut Rng) -> (Optio
             *decl_counts.entry(prm.name.clone()).or_insert(0) += 1;
         }
     }
+    // a name that is also a top-level constant stays known after the scope of a local of that name ended
+    for (n, _, _) in &p.defs.consts {
+        *decl_counts.entry(n.clone()).or_insert(0) += 1;
+    }
     let fns_info: Vec<(String, Vec<Param>, Ty)> = p.fns.iter().map(|f| (f.name.clone(), f.params.clone(), f.ret.clone())).collect();
     let mut m = Mutator { rule, target, seen: 0, applied: false, rng, defs: p.defs.clone(), fns: fns_info.clone(), scopes: vec![], decl_counts, cur_fn: 0 };
     if rule == Rule::MutualRecursion {
